@@ -24,7 +24,15 @@ structure Addr where
                   -- The connector never compares addresses (`split` keeps every entry, `remaining =
                   -- len(addrinfo)`), so nothing in this file reads `name`: a repeated address is attempted
                   -- once per entry.  Only the specification (`Spec.lean`) looks at it.
+  raises : Bool := false
+                  -- only read when `sync`: the `connect` callable RAISES for this entry instead of returning a
+                  -- stream with an already-failed future (`TCPClient._create_stream` re-raising a failed `bind()`
+                  -- after closing the socket it made).  `try_connect` catches the exception and treats the attempt
+                  -- as failed; no stream reaches `self.streams`.
   deriving Repr, BEq, DecidableEq
+
+/-- the `connect` call for this entry raises -/
+def Addr.phantom (a : Addr) : Bool := a.sync && a.raises
 
 /-- state of a stream's connect future -/
 inductive Fut where
@@ -105,6 +113,9 @@ def clearTimeouts (st : St) : St :=
   { st with timer := if st.timer == .none then .none else .cancelled,
             ctimer := match st.ctimer with | .live => .cancelled | c => c }
 
+/-- `self.streams.add(stream)` — skipped (the `else:` of the `try`) when the `connect` call raised -/
+def addIn (a : Addr) (l : List Nat) (s : Nat) : List Nat := if a.phantom then l else l ++ [s]
+
 /-- `try_connect(addrs)` where `as` is what is left of iterator `it`; `k` is the tail of `on_connect_done`'s
 failure branch (`if self.timeout is not None: …`), run after each synchronous failure that is not a late arrival -/
 def tryConnect (k : St → St) (it : Nat) : List Addr → St → St
@@ -116,10 +127,13 @@ def tryConnect (k : St → St) (it : Nat) : List Addr → St → St
   | a :: rest, st =>
     let s := st.streams.length
     let st := setIter st it rest
+    -- `streams` records every `connect` CALL.  A call that raised has no stream object: its record is the socket
+    -- the callable made and closed itself (failed, closed, never in `self.streams`, never `close()`d by the connector)
     let st := { st with streams := st.streams ++ [⟨a, it, if a.sync then .err else .pending, a.sync, a.sync, 0⟩],
-                        inSet := st.inSet ++ [s] }
+                        inSet := addIn a st.inSet s }
     if a.sync then
-      -- future already failed: `on_connect_done` runs inside `future_add_done_callback`
+      -- future already failed (returned failed, or made from the caught exception): `on_connect_done` runs
+      -- inside `future_add_done_callback`
       let st := { st with remaining := st.remaining - 1 }
       if st.done then st
       else k (tryConnect k it rest { st with lastError := some s })
@@ -226,10 +240,15 @@ def trace (st : St) : List Event → List St
 
 /-- number the addresses of an `addrinfo` list given as (family, sync) pairs; pairwise different addresses -/
 def mkAddrs (l : List (Nat × Bool)) : List Addr :=
-  (List.range l.length).zip l |>.map (fun (i, (f, s)) => ⟨i, f, s, i⟩)
+  (List.range l.length).zip l |>.map (fun (i, (f, s)) => ⟨i, f, s, i, false⟩)
 
 /-- an `addrinfo` list given as (family, address, sync) triples: entries may repeat an address -/
 def mkNamed (l : List (Nat × Nat × Bool)) : List Addr :=
-  (List.range l.length).zip l |>.map (fun (i, (f, n, s)) => ⟨i, f, s, n⟩)
+  (List.range l.length).zip l |>.map (fun (i, (f, n, s)) => ⟨i, f, s, n, false⟩)
+
+/-- the same with a per-entry outcome of the `connect` CALL: 0 = returns a pending future, 1 = returns an
+already-failed future, 2 = raises -/
+def mkNamedR (l : List (Nat × Nat × Nat)) : List Addr :=
+  (List.range l.length).zip l |>.map (fun (i, (f, n, s)) => ⟨i, f, s != 0, n, s == 2⟩)
 
 end TornadoModel.C10
